@@ -10,7 +10,7 @@ use ip::{
     traits::PrefixRange as _,
     Afi, Ipv4, Ipv6,
 };
-use netconf::message::{rpc::operation::Datastore, ReadError, ReadXml};
+use netconf::message::{read_text, rpc::operation::Datastore, ReadError, ReadXml};
 use quick_xml::{
     events::{BytesStart, Event},
     name::{Namespace, QName, ResolveResult},
@@ -52,7 +52,7 @@ struct Maybe<T>(Option<(Name, T)>);
 /// character and entity references (`&amp;`, `&lt;`, ..) have to be resolved here; otherwise the
 /// name is escaped a second time when it is written back in an update.
 fn read_name(reader: &mut NsReader<&[u8]>, tag: &BytesStart<'_>) -> Result<Name, ReadError> {
-    let raw = reader.read_text(tag.to_end().name())?;
+    let raw = read_text(reader, tag.to_end().name())?;
     let name = quick_xml::escape::unescape(&raw).map_err(quick_xml::Error::from)?;
     Ok(Name::new(name))
 }
@@ -398,7 +398,7 @@ impl<'i> BorrowedReadXml<'i> for Term<'i> {
                     if tag.local_name().as_ref() == b"name" && name.is_none() =>
                 {
                     tracing::trace!(?tag);
-                    name = Some(reader.read_text(tag.to_end().name())?);
+                    name = Some(read_text(reader, tag.to_end().name())?);
                 }
                 (ResolveResult::Bound(XNM), Event::Start(tag))
                     if tag.local_name().as_ref() == b"from" && from.is_none() =>
@@ -532,7 +532,7 @@ impl<'i> BorrowedReadXml<'i> for TermFrom<'i> {
                     if tag.local_name().as_ref() == b"family" && family.is_none() =>
                 {
                     tracing::trace!(?tag);
-                    family = Some(trimmed(reader.read_text(tag.to_end().name())?));
+                    family = Some(trimmed(read_text(reader, tag.to_end().name())?));
                 }
                 (ResolveResult::Bound(XNM), Event::Start(tag))
                     if tag.local_name().as_ref() == b"route-filter" =>
@@ -586,14 +586,14 @@ impl<'i> BorrowedReadXml<'i> for RouteFilter<'i> {
                     if tag.local_name().as_ref() == b"address" && address.is_none() =>
                 {
                     tracing::trace!(?tag);
-                    address = Some(trimmed(reader.read_text(tag.to_end().name())?));
+                    address = Some(trimmed(read_text(reader, tag.to_end().name())?));
                 }
                 (ResolveResult::Bound(XNM), Event::Start(tag))
                     if tag.local_name().as_ref() == b"choice-ident"
                         && prefix_length_range.is_none() =>
                 {
                     tracing::trace!(?tag);
-                    let ident = trimmed(reader.read_text(tag.to_end().name())?);
+                    let ident = trimmed(read_text(reader, tag.to_end().name())?);
                     if ident.as_ref() != "prefix-length-range" {
                         return Err(ReadError::Other(
                             anyhow!("unexpected 'choice-ident' value '{ident}'").into(),
@@ -606,7 +606,7 @@ impl<'i> BorrowedReadXml<'i> for RouteFilter<'i> {
                             {
                                 tracing::trace!(?tag);
                                 prefix_length_range =
-                                    Some(trimmed(reader.read_text(tag.to_end().name())?));
+                                    Some(trimmed(read_text(reader, tag.to_end().name())?));
                                 break;
                             }
                             (_, Event::Comment(_)) => continue,
